@@ -43,6 +43,11 @@ def judge_outcomes(sysm, problems):
     cfg = sysm.cfg
     got = {}
     confs = sysm.client.confirmations
+    for e in sysm.errors:
+        if e.startswith("submit:") or e.startswith("iam:"):
+            problems.append(("submitting-the-request-raised:%s" % e.split(":")[1], {"error": e}))
+    if len(sysm.submitted) + sum(1 for e in sysm.errors if e.startswith("submit:")) != len(cfg.reqs):
+        problems.append(("harness:not-every-request-was-submitted", {"submitted": len(sysm.submitted)}))
     for sn, req in sysm.submitted:
         inv = req.apduInvokeID
         mine = [c for c in confs if c[3] == inv]
